@@ -284,14 +284,23 @@ fn versioned_seeds(_t: Tier) -> Vec<Seed> {
 }
 
 fn versioned_direct_seeds(_t: Tier) -> Vec<Seed> {
-    // VersionedSerialize::deserialize_versioned reads [version u32][fields]
+    // VersionedSerialize::deserialize_versioned reads [version u32][fields].  serialize_versioned writes the
+    // version itself since zipora commit "serialize_versioned writes the header"; on older trees it did not,
+    // so fall back to writing it here when the plain output is not accepted.
     rec_values()
         .iter()
         .filter_map(|(l, v)| {
+            let mut plain = VecDataOutput::new();
+            v.serialize_versioned(&mut plain).ok()?;
+            let plain = plain.into_vec();
+            if Rec::deserialize_versioned(&mut SliceDataInput::new(&plain)).map(|r| r == *v).unwrap_or(false) {
+                return Some(seed(l, plain, 0));
+            }
             let mut o = VecDataOutput::new();
             Rec::current_version().serialize(&mut o).ok()?;
-            v.serialize_versioned(&mut o).ok()?;
-            Some(seed(l, o.into_vec(), 0))
+            let mut b = o.into_vec();
+            b.extend_from_slice(&plain);
+            Some(seed(l, b, 0))
         })
         .collect()
 }
